@@ -138,11 +138,12 @@ Theorem C13_loop_panic_halts : forall s t1 t2 pd k,
 Proof. exact loop_panic_halts. Qed.
 Print Assumptions C13_loop_panic_halts.
 
-(* 6. unbonding: what an accepted UnbondedOracle does (pays balance - penalty once, deletes the records,
-      a second call fails) ... *)
+(* 6. unbonding.  [unbond_needs_entry] (gen/Gen_OracleSlash.v) is re-read from UnbondedOracle on every run:
+      true = `if _, err = GetUnbondingDelegation(...); err != nil { return nil, err }` (the tree as it is).
+      What an accepted UnbondedOracle does: pays balance - penalty once, deletes the records, a second call fails *)
 Theorem C13_unbond_pays_once : forall s a s', step s (Unbond a) = Ok s' ->
   exists r, recs s a = Some r /\ ~ In a (proposal s) /\ o_online r = false /\
-    has_ubd a (o_val r) (ubds s) = true /\
+    has_ubd a (o_val r) (ubds s) = unbond_needs_entry /\
     bal_o s' a = bal_o s a + (bal_d s a - slash_amount r (p_fraction (prm s))) /\
     (0 < slash_amount r (p_fraction (prm s)) -> slash_amount r (p_fraction (prm s)) <= bal_d s a) /\
     bal_d s' a = 0 /\ burned s' = burned s + slash_amount r (p_fraction (prm s)) /\
@@ -152,24 +153,27 @@ Theorem C13_unbond_pays_once : forall s a s', step s (Unbond a) = Ok s' ->
 Proof. exact unbond_spec. Qed.
 Print Assumptions C13_unbond_pays_once.
 
-(*    ... but it is accepted only while stake is still in the unbonding queue (finding C13-1) *)
-Theorem C13_unbond_refused_without_pending_entry : forall s a,
+(*    ... but, the test being the wrong way round, it is accepted only while stake is still in the
+      unbonding queue (finding C13-1) *)
+Theorem C13_unbond_refused_without_pending_entry : unbond_needs_entry = true -> forall s a,
   (forall u, In u (ubds s) -> u_orc u <> a) -> forall s', step s (Unbond a) <> Ok s'.
 Proof. exact unbond_refused_without_pending_entry. Qed.
 Print Assumptions C13_unbond_refused_without_pending_entry.
 
-Theorem C13_unbond_refused_after_maturity : forall s t1 t2 pd s1 a, step s (EndBlock t1 t2 pd) = Ok s1 ->
+Theorem C13_unbond_refused_after_maturity : unbond_needs_entry = true ->
+  forall s t1 t2 pd s1 a, step s (EndBlock t1 t2 pd) = Ok s1 ->
   (forall u, In u (ubds s) -> u_orc u = a -> u_time u <= t1) ->
   (forall s2, unbond s1 a <> Ok s2) /\ bal_d s1 a = bal_d s a + matured_sum t1 (ubds s) a.
 Proof. exact unbond_refused_after_maturity. Qed.
 Print Assumptions C13_unbond_refused_after_maturity.
 
-Theorem C13_unbond_accepted_forfeits_pending_stake : forall s a s', step s (Unbond a) = Ok s' ->
+Theorem C13_unbond_accepted_forfeits_pending_stake : unbond_needs_entry = true ->
+  forall s a s', step s (Unbond a) = Ok s' ->
   exists u, In u (ubds s') /\ u_orc u = a /\ recs s' a = None.
 Proof. exact unbond_accepted_forfeits_pending_stake. Qed.
 Print Assumptions C13_unbond_accepted_forfeits_pending_stake.
 
-Theorem C13_unbond_after_maturity_refuted : exists ops a r,
+Theorem C13_unbond_after_maturity_refuted : unbond_needs_entry = true -> exists ops a r,
   let s := run w_init ops in
   recs s a = Some r /\ ~ In a (proposal s) /\ o_online r = false /\ o_slash r = 0 /\
   (forall u, In u (ubds s) -> u_orc u <> a) /\
@@ -178,7 +182,7 @@ Theorem C13_unbond_after_maturity_refuted : exists ops a r,
 Proof. exact unbond_after_maturity_refuted. Qed.
 Print Assumptions C13_unbond_after_maturity_refuted.
 
-Theorem C13_unbond_before_maturity_refuted : exists ops a,
+Theorem C13_unbond_before_maturity_refuted : unbond_needs_entry = true -> exists ops a,
   let s := run w_init ops in
   exists s1, step s (Unbond a) = Ok s1 /\
     bal_o s1 a - bal_o s a = 7 /\ recs s1 a = None /\ burned s1 = 0 /\
@@ -187,6 +191,15 @@ Theorem C13_unbond_before_maturity_refuted : exists ops a,
     bal_d s2 a = FX 10000 /\ recs s2 a = None /\ step s2 (Unbond a) = Err e_notfound.
 Proof. exact unbond_before_maturity_refuted. Qed.
 Print Assumptions C13_unbond_before_maturity_refuted.
+
+(*    ... and the intended behaviour, for a tree with the test turned round (the proposed patch) *)
+Theorem C13_unbond_after_maturity_accepted_if_fixed : unbond_needs_entry = false ->
+  forall s a r, recs s a = Some r -> ~ In a (proposal s) -> o_online r = false ->
+  (forall u, In u (ubds s) -> u_orc u <> a) ->
+  (0 < slash_amount r (p_fraction (prm s)) -> slash_amount r (p_fraction (prm s)) <= bal_d s a) ->
+  exists s', step s (Unbond a) = Ok s'.
+Proof. exact unbond_after_maturity_accepted_if_fixed. Qed.
+Print Assumptions C13_unbond_after_maturity_accepted_if_fixed.
 
 (* 7. non-vacuity *)
 Theorem C13_nonvacuous :
